@@ -7,7 +7,7 @@ from pathlib import Path
 SCHEMA_PATH = Path(__file__).with_name("schema.graphql")
 SDL = SCHEMA_PATH.read_text()
 
-FRAG_ON = {"FJ": "J", "FI": "I", "FA": "A", "FA2": "A", "FU": "U", "FD": "D", "FInl": "J", "FB": "B", "FAfr": "A", "FDo": "D"}
+FRAG_ON = {"FJ": "J", "FI": "I", "FA": "A", "FA2": "A", "FU": "U", "FD": "D", "FInl": "J", "FB": "B", "FAfr": "A", "FDo": "D", "FA3": "A"}
 FRAG_TEXT = {
     "FJ": "fragment FJ on J {\n  id\n  name\n}",
     "FI": "fragment FI on I {\n  rank\n}",
@@ -19,8 +19,9 @@ FRAG_TEXT = {
     "FB": "fragment FB on B {\n  b1\n}",
     "FAfr": "fragment FAfr on A {\n  friend {\n    id\n  }\n}",
     "FDo": "fragment FDo on D {\n  owner {\n    ...FAfr\n  }\n}",
+    "FA3": "fragment FA3 on A {\n  ...FA2\n  rank\n}",
 }
-FRAG_DEPS = {"FA2": ["FA"], "FDo": ["FAfr"]}
+FRAG_DEPS = {"FA2": ["FA"], "FDo": ["FAfr"], "FA3": ["FA2"]}
 POSSIBLE = {"J": ["A", "B", "C"], "I": ["A", "B"], "U": ["A", "D"], "A": ["A"], "B": ["B"], "C": ["C"], "D": ["D"]}
 ROOT_TYPE = {"j": ("J", "T"), "i": ("I", "T!"), "u": ("U", "T"), "us": ("U", "[T!]!"), "js": ("J", "[T]"), "a": ("A", "T"),
              "aList": ("A", "[T!]"), "d": ("D", "T"), "mat": ("A", "[[T!]]")}
@@ -148,7 +149,7 @@ def features(op):
     SUPER = {"I": {"J"}, "A": {"I", "J", "U"}, "B": {"I", "J"}, "C": {"J"}, "D": {"U"}, "J": set(), "U": set()}
     HAS_INLINE = {"FU", "FInl"}
 
-    def walk(sels, T, top):
+    def walk(sels, T, top, cond_ctx=False):
         for a in sels:
             if a["k"] == "f":
                 if a["cond"] != "none":
@@ -167,7 +168,7 @@ def features(op):
                     f["abstract_cond_in_abstract"] = True
                     if a["on"] not in SUPER[T]:
                         f["narrowing_abstract_fragment"] = True
-                walk(a["sels"], a["on"] if a["on"] != "-" else T, False)
+                walk(a["sels"], a["on"] if a["on"] != "-" else T, False, cond_ctx or a["cond"] != "none")
             else:
                 f["spread"] = True
                 if a["cond"] != "none":
@@ -180,12 +181,12 @@ def features(op):
                 # the fragment becomes a base class of the class generated for its own type, which exists when that
                 # type is the position's type or (abstract position) one of its sub-types
                 SUB = {"J": {"I", "A", "B", "C"}, "I": {"A", "B"}, "U": {"A", "D"}}
-                if a["cond"] != "none" and on != "U" and a["frag"] not in HAS_INLINE and (on == T or on in SUB.get(T, ())):
+                if (a["cond"] != "none" or cond_ctx) and on != "U" and a["frag"] not in HAS_INLINE and (on == T or on in SUB.get(T, ())):
                     f["cond_mixin_spread"] = True
     walk(op["sels"], named, True)
     # the same response key reached through two different atoms of one selection set (field merging)
     FRAG_SELS = {"FJ": ["id", "name"], "FI": ["rank"], "FA": ["a1", "tags"], "FA2": ["a1", "tags", "color"], "FU": ["a1", "d1"],
-                 "FD": ["d1"], "FInl": ["id", "a1"], "FB": ["b1"], "FAfr": ["friend"], "FDo": ["owner"]}
+                 "FD": ["d1"], "FInl": ["id", "a1"], "FB": ["b1"], "FAfr": ["friend"], "FDo": ["owner"], "FA3": ["a1", "tags", "color", "rank"]}
 
     def keys_of(a):
         if a["k"] == "f":
